@@ -36,6 +36,10 @@ type verifConn struct {
 	failAt   int           // index of the WriteTo call that fails (-1: none)
 	readErr  chan struct{} // closed when reading starts to fail (a fault of the socket, not Close)
 	wdl      int64         // write deadline as a virtual instant (0: none), as net.PacketConn specifies
+	// set by a harness when Client.Close has returned: a ReadFrom that STARTS after that is a
+	// receive loop that Close did not wait for
+	closeReturned bool
+	lateReads     int
 }
 
 func newVerifConn() *verifConn {
@@ -48,6 +52,11 @@ var errVerifWriteTimeout = errors.New("verif: write: i/o timeout")
 var errVerifReadFault = errors.New("verif: read failed")
 
 func (c *verifConn) ReadFrom(b []byte) (int, net.Addr, error) {
+	c.mu.Lock()
+	if c.closeReturned {
+		c.lateReads++
+	}
+	c.mu.Unlock()
 	select {
 	case d := <-c.in:
 		n := copy(b, d.data)
@@ -90,9 +99,9 @@ func (c *verifConn) Close() error {
 	c.mu.Unlock()
 	return c.closeErr // a socket may report an error on close and is closed nevertheless
 }
-func (c *verifConn) LocalAddr() net.Addr                { return &net.UDPAddr{Port: 68} }
-func (c *verifConn) SetDeadline(t time.Time) error      { return nil }
-func (c *verifConn) SetReadDeadline(t time.Time) error  { return nil }
+func (c *verifConn) LocalAddr() net.Addr               { return &net.UDPAddr{Port: 68} }
+func (c *verifConn) SetDeadline(t time.Time) error     { return nil }
+func (c *verifConn) SetReadDeadline(t time.Time) error { return nil }
 func (c *verifConn) SetWriteDeadline(t time.Time) error {
 	c.mu.Lock()
 	if t.IsZero() {
@@ -133,10 +142,10 @@ func (c *verifCtx) Deadline() (time.Time, bool) {
 	}
 	return time.Time{}, false
 }
-func (c *verifCtx) Done() <-chan struct{}       { return c.done }
-func (c *verifCtx) Err() error                  { return c.err }
-func (c *verifCtx) Value(key any) any           { return nil }
-func (c *verifCtx) cancelAt(t int64)            { c.endAt(t, errVerifCanceled) }
+func (c *verifCtx) Done() <-chan struct{} { return c.done }
+func (c *verifCtx) Err() error            { return c.err }
+func (c *verifCtx) Value(key any) any     { return nil }
+func (c *verifCtx) cancelAt(t int64)      { c.endAt(t, errVerifCanceled) }
 
 // endAt ends the context at virtual instant t with the given error (context.Canceled,
 // context.DeadlineExceeded, or the harness's own sentinel).
